@@ -83,6 +83,10 @@ pub fn install_panic_hook() {
     }));
 }
 
+pub fn take_last_panic() -> Option<String> {
+    LAST_PANIC.with(|p| p.borrow_mut().take())
+}
+
 /// Run code under test; a panic is data, not a crash.
 pub fn guarded<T>(f: impl FnOnce() -> T) -> Result<T, String> {
     match catch_unwind(AssertUnwindSafe(f)) {
